@@ -19,6 +19,10 @@ import (
 // fixed chunk modes always exercised + seeded ones in 1..1024
 var fixedModes = []uint32{1, 2, 3, 4, 5, 7, 8, 16, 64, 1023, 1024, 1025, 1026}
 
+// hugeMode: chunk modes for batches of more than 65536 documents (a small fixed
+// chunk size costs chunks x terms: gigabytes).
+func hugeMode(i int) uint32 { return []uint32{1026, 1025, 1024}[i%3] }
+
 func modeFor(i int, rng *rand.Rand) uint32 {
 	if i%3 != 2 {
 		return fixedModes[(i/3*2+i%3)%len(fixedModes)]
@@ -28,6 +32,9 @@ func modeFor(i int, rng *rand.Rand) uint32 {
 
 // classFor spreads the size classes; tall batches are rare (they are big).
 func classFor(i int, rng *rand.Rand, tallEvery int) string {
+	if i == 78 {
+		return "huge" // once per run: document numbers beyond 16 bits
+	}
 	if tallEvery > 0 && i%tallEvery == tallEvery-1 {
 		return "tall"
 	}
